@@ -407,7 +407,16 @@ _ORIG_MAKE = c01.make_adapter
 def _make_adapter(name, cfg, p, oracles):
     ad = _ORIG_MAKE(name, cfg, p, oracles)
     if p.get("scan_first"):
-        idx = c01.core_alphabet(cfg, SCAN_FIRST)
+        blue = [a for a in cfg["agents"] if a["type"] == "proxy-agent"][0]
+        amap = blue["action_space"]["action_map"]
+        want = [("node-folder-scan", "'docs'"), ("node-file-scan", "'a.txt'"), ("node-os-scan", "'backup_server'"),
+                ("node-service-scan", "'web_server'"), ("node-application-scan", "'web-browser'"), ("node-folder-scan", "'database'")]
+        idx = []
+        for nm, hint in want:
+            for i in sorted(amap):
+                if amap[i]["action"] == nm and hint in str(amap[i].get("options")):
+                    idx.append(i)
+                    break
 
         def default_event(s, t, idx=idx):
             # slots 0..n-1: one scan action each (folder, file, os, service, application), then do-nothing
@@ -457,9 +466,10 @@ def run(tier, is_known):
     order = [cfg for _, cfg, _, _ in pl]
     idx = {"i": 0}
 
-    def factory():
-        cfg = order[idx["i"]]
-        idx["i"] += 1
+    def factory(cfg=None):
+        if cfg is None:
+            cfg = order[idx["i"]]
+            idx["i"] += 1
         return [GroundTruthOracle(cfg)]
 
     _install_scan_first(pl)
